@@ -171,6 +171,7 @@ def stale_only_cleanup(P, k, genf, gen_call, c2, fsreach, hit_blocks=None):
 
 def check(ctx):
     P = ctx.P
+    S = ctx.S
     reach = P.reachable(ENTRY_POINTS)
     memo = {}
     fsreach = lambda fid: P.reaches(fid, is_fs_mut, memo)  # noqa: E731
@@ -587,10 +588,12 @@ def check(ctx):
     for k, g in P.fns.items():
         if "::generation_cache::" in k or "{promoted" in k or not k.startswith(("tauri_typegen", "cargo_tauri_typegen")):
             continue
-        written.update(x for x in g.const_strs() if FILE_RX.match(x))
+        from rulelib import family_strs as _fs
+        written.update(x for x in (_fs(P, S, k) if "{closure" not in k else g.const_strs()) if FILE_RX.match(x))
     n_v = 0
     for k in vouch:
-        names = sorted({x for kk in P.family(k) if "{promoted" not in kk for x in P.fns[kk].const_strs() if FILE_RX.match(x)})
+        from rulelib import family_strs
+        names = sorted({x for x in family_strs(P, S, k) if FILE_RX.match(x)})
         for nm in names:
             n_v += 1
             if nm in written:
